@@ -13,6 +13,68 @@ ROOT = os.path.dirname(os.path.dirname(os.path.abspath(__file__)))
 sys.path.insert(0, ROOT)
 
 
+def search(path, n):
+    """the verifier refuted an obligation but its counter-model does not reproduce natively (it may assign
+    impossible values to symbols standing for callee results): look for a failing input among n random inputs
+    that satisfy the contract's requires, running the NATIVE code with the contract's concrete clauses"""
+    import random
+    rec = json.load(open(path))
+    repo = rec.get('repo') or os.environ.get('PYVC_REPO', '/repo')
+    if repo != '/repo':
+        sys.path.insert(0, repo)
+    from pyvc.contract import REGISTRY, G, Reject
+    from pyvc import run as _run
+    _run.load_contracts()
+    import importlib
+    c = REGISTRY[rec['contract']]()
+    fn = None
+    if c.target:
+        modname, qual = c.target.split(':')
+        obj = importlib.import_module(modname)
+        for q in qual.split('.'):
+            obj = getattr(obj, q)
+        fn = obj
+    rng = random.Random(int(os.environ.get('VERIF_SEED', '0') or 0) + 12345)
+    tried = 0
+    for _ in range(20 * n):
+        if tried >= n:
+            break
+        g = G('sample', rng=rng)
+        try:
+            args, kwargs = c.setup(g)
+            # contracts that declare their inputs in run(): execute run in sample mode on the native code
+            g.mode = 'sample'
+            env_probe = G('sample', rng=rng, env=g.env)
+            res = c.run(env_probe, fn, args, kwargs)
+            env = dict(env_probe.env)
+        except Reject:
+            continue
+        except Exception:
+            env = dict(g.env)
+        tried += 1
+        g2 = G('concrete', env=env, tol=c.tol)
+        try:
+            args, kwargs = c.setup(g2)
+            res = c.run(g2, fn, args, kwargs)
+            c.post(g2, res, args, kwargs)
+        except Reject:
+            continue
+        except Exception as e:
+            if isinstance(e, tuple(c.expect_raises)):
+                continue
+            g2.failures.append(('native code raised %s' % type(e).__name__, str(e)[:200]))
+        if g2.failures:
+            rec['witness'] = env
+            rec['witness_source'] = 'random search over the contract inputs after the solver model did not reproduce'
+            json.dump(rec, open(path, 'w'), indent=1, default=str)
+            print('replay-search: failing input found after %d tries' % tried)
+            for nm, d in g2.failures[:6]:
+                print('replay: FAILS natively: %s -- %s' % (nm, d))
+            return 1
+    print('replay-search: no failing input among %d random inputs' % tried)
+    return 0
+
+
 def main(path):
     rec = json.load(open(path))
     repo = rec.get('repo') or os.environ.get('PYVC_REPO', '/repo')
@@ -72,4 +134,6 @@ def main(path):
 
 
 if __name__ == '__main__':
+    if sys.argv[1] == '--search':
+        sys.exit(search(sys.argv[3], int(sys.argv[2])))
     sys.exit(main(sys.argv[1]))
